@@ -31,7 +31,9 @@ def crash_case(args):
         sc.plant(sp.files)
         impl = t3.run_impl(sc, sp, crash="%s:%d" % point if point else None, timeout=60)
         problems = t3.atomicity_problems(sp, model, impl["fs"])
-        return {"spec": sp.text(), "bufsize": sp.bufsize, "problems": problems, "point": point, "rc": impl["rc"], "stderr": impl["stderr"][-200:], "yield": None,
+        rstats = {}
+        problems += t3.replay_problems(sp, model, impl, ("tasks",), stats=rstats, crash=point)
+        return {"replay": rstats, "spec": sp.text(), "bufsize": sp.bufsize, "problems": problems, "point": point, "rc": impl["rc"], "stderr": impl["stderr"][-200:], "yield": None,
                 "ntasks": len(model["tasks"]), "wall": impl["wall"], "kind": "crash"}
     finally:
         sc.close()
@@ -52,7 +54,9 @@ def fail_case(args):
         sc.plant(sp.files)
         impl = t3.run_impl(sc, sp, timeout=60)
         problems = t3.atomicity_problems(sp, model, impl["fs"])
-        return {"spec": sp.text(), "bufsize": sp.bufsize, "problems": problems, "point": None, "rc": impl["rc"], "stderr": impl["stderr"][-200:], "yield": None,
+        rstats = {}
+        problems += t3.replay_problems(sp, model, impl, ("tasks",), stats=rstats)
+        return {"replay": rstats, "spec": sp.text(), "bufsize": sp.bufsize, "problems": problems, "point": None, "rc": impl["rc"], "stderr": impl["stderr"][-200:], "yield": None,
                 "ntasks": len(model["tasks"]), "wall": impl["wall"], "kind": "fail-" + p.fail + ("-gofunc" if p.gofunc else "")}
     finally:
         sc.close()
@@ -70,7 +74,9 @@ def kill_case(args):
         sc.plant(sp.files)
         impl = t3.run_impl(sc, sp, kill_after=rng.uniform(0.01, 0.5), timeout=60)
         problems = t3.atomicity_problems(sp, model, impl["fs"])
-        return {"spec": sp.text(), "bufsize": sp.bufsize, "problems": problems, "point": None, "rc": impl["rc"], "stderr": "", "yield": None,
+        rstats = {}
+        problems += t3.replay_problems(sp, model, impl, ("tasks",), stats=rstats)
+        return {"replay": rstats, "spec": sp.text(), "bufsize": sp.bufsize, "problems": problems, "point": None, "rc": impl["rc"], "stderr": "", "yield": None,
                 "ntasks": len(model["tasks"]), "wall": impl["wall"], "kind": "sigkill" if impl["killed"] else "completed-before-kill"}
     finally:
         sc.close()
